@@ -1,5 +1,5 @@
 """Property -> rules table.  Rules are functions (ctx, repo)."""
-from .rules import ndim, iface, wrappers, rng, mech, errmodels, popmodels, switch, copies, cursors, reduced, layout, noise, filters, caches, problems, dosing, sbml, predictive, inference, plots
+from .rules import ndim, iface, wrappers, rng, mech, errmodels, popmodels, switch, copies, cursors, reduced, layout, noise, filters, caches, problems, dosing, sbml, predictive, inference, plots, loglik
 
 PROPS = {}
 
@@ -38,7 +38,8 @@ COMMON_ASSUME = [
 ]
 
 prop('C01',
-     [CUR_LL, switch.r03_5, errmodels.r04_terms],
+     [CUR_LL, switch.r03_5, errmodels.r04_terms, loglik.r01_2,
+      loglik.r01_3, loglik.r01_4, caches.r08_5, copies.r19_3],
      undecided=['that the mechanistic prediction is the model value at that '
                 'time (ODE solver)', 'float equality of time points'],
      assumptions=COMMON_ASSUME,
